@@ -1,9 +1,9 @@
 package main
 
 import (
+	"math"
 	"sort"
 	"strconv"
-	"math"
 	"strings"
 	"time"
 
@@ -220,7 +220,6 @@ func c03GenWkt(r *rng, code string, pathSafe bool) proto.Message {
 	panic("c03GenWkt " + code)
 }
 
-
 // ---------- messages ----------
 
 func c03IsWkt(fd protoreflect.FieldDescriptor) bool {
@@ -435,7 +434,6 @@ func (e *c03Env) genRoundtrip(o *out, r *rng, rule c03Rule) {
 	}
 }
 
-
 // text that is not a proto3-JSON form of any value of the field
 func c03BadTexts(fd protoreflect.FieldDescriptor) []string {
 	if fd.Message() != nil {
@@ -594,17 +592,17 @@ var c03Lenient = map[string][]string{
 	"f_int32": {" 12", "12\n", "\t-7 ", "null", "-0", "0", " null ", "12\x00", "1\n2"}, "f_uint32": {"null", " 4294967295", "-0", "0"},
 	"f_int64": {"null", " -9223372036854775808 ", "-0"}, "f_uint64": {" 18446744073709551615\r\n", "-0", "null"},
 	"f_bool": {" true", "false\n", "null", " null"}, "f_enum": {"1", " 2 ", "null", "-1", "7", "2147483647", "RED", " RED", "-0"},
-	"f_null": {"null", "NULL_VALUE", "0", "5", " null"},
-	"f_bytes": {"QR", "QUJD\n", "Q\nQ", "QQ==\n", "QQ\n==", "QUI", "QUI=", "-w", "_w==", "+w==", "/w", "\r\n", "QUJDQQ", "QUJDQR=="},
+	"f_null":   {"null", "NULL_VALUE", "0", "5", " null"},
+	"f_bytes":  {"QR", "QUJD\n", "Q\nQ", "QQ==\n", "QQ\n==", "QUI", "QUI=", "-w", "_w==", "+w==", "/w", "\r\n", "QUJDQQ", "QUJDQR=="},
 	"f_string": {"null", "\"q\"", " ", "%"},
-	"f_float": {"1e2", " 1.5", "null", "NaN", "Infinity", "-Infinity", "1E-2", "-0", "3.4028235e38", "16777217"},
+	"f_float":  {"1e2", " 1.5", "null", "NaN", "Infinity", "-Infinity", "1E-2", "-0", "3.4028235e38", "16777217"},
 	"f_double": {"1e2", "null", "NaN", "Infinity", "-Infinity", "1e308", "4.9e-324", "0.1"},
 	"w_string": {"\"abc\"", "\"", "\"\"", "", "a\"b", "\"a", "a\\b", "\\u0041", "\"\\u0041\""}, "w_bytes": {"\"QUJD\"", "QR", "", "\""},
 	"w_int64": {"\"5\"", " 5", "5.0", "1e2", "null"}, "w_int32": {"\"5\"", "1e1", "null"}, "w_bool": {"null", "\"true\""},
 	"w_double": {"\"NaN\"", "NaN", "\"1.5\"", "Infinity"}, "w_float": {"NaN", "1e39"},
-	"ts": {"\"2020-01-02T03:04:05Z\"", "2020-01-02T03:04:05.5+01:00", "2020-01-02t03:04:05z", "null", "", "0001-01-01T00:00:00Z", "9999-12-31T23:59:59.999999999Z", "10000-01-01T00:00:00Z"},
-	"dur": {"\"1s\"", "1.5s", "-0.5s", "null", "315576000001s", "1.s", "+1s", ""},
-	"mask": {"a,b", "\"a\"", "a_b", "fooBar", "a,,b", "null", " a"},
+	"ts":      {"\"2020-01-02T03:04:05Z\"", "2020-01-02T03:04:05.5+01:00", "2020-01-02t03:04:05z", "null", "", "0001-01-01T00:00:00Z", "9999-12-31T23:59:59.999999999Z", "10000-01-01T00:00:00Z"},
+	"dur":     {"\"1s\"", "1.5s", "-0.5s", "null", "315576000001s", "1.s", "+1s", ""},
+	"mask":    {"a,b", "\"a\"", "a_b", "fooBar", "a,,b", "null", " a"},
 	"r_int32": {"1", " 2", "null"}, "r_ts": {"2020-01-02T03:04:05Z"},
 	"o_str": {""}, "o_int": {"0", "null"}, "p_int32": {"0", "null"}, "p_string": {""},
 }
